@@ -105,7 +105,7 @@ func VerifyFunc(w *World, key string, c *Contract) (rep *FuncReport) {
 		env.lets[l.Name] = l.E
 	}
 	for _, r := range c.Requires {
-		st.assume(env.evalBool(r.E))
+		st.assume(inGroup(env.evalBool(r.E), clauseGroup(r.Props)))
 	}
 	for _, u := range c.Uses {
 		found := false
@@ -120,7 +120,7 @@ func VerifyFunc(w *World, key string, c *Contract) (rep *FuncReport) {
 						h = lenv.evalBool(guarded)
 					}
 				}
-				st.assume(h)
+				st.assume(inGroup(h, strings.TrimSpace(c.Opts["usesgroup"])))
 				found = true
 				if lm.Axiom {
 					in.note("axiom (trusted lemma): " + lm.Name)
@@ -254,11 +254,13 @@ func (f *Frame) checkPost(c *Contract, sig *types.Signature, o Outcome, rets []V
 		}
 	}
 	for i, e := range c.Ensures {
-		if len(e.Props) > 0 && !hasProp(e.Props, currentProp) {
+		if pt := propTags(e.Props); len(pt) > 0 && !hasProp(pt, currentProp) {
 			continue
 		}
 		goal := env.evalBool(e.E)
+		f.curGroup = clauseGroup(e.Props)
 		f.oblige(st, "post", fmt.Sprintf("%s#post:%d@ret%d", f.key, i+1, retIdx), o.Pos, goal, e.Text)
+		f.curGroup = ""
 	}
 	if !c.NoFrame {
 		f.checkFrame(c, env, st, retIdx, o)
